@@ -559,6 +559,9 @@ func (e *Engine) call(fn *ssa.Function, s *St, in *ssa.Call, ip int) (next []suc
 		}
 		d := hash.Sha256([]byte(in0)).BytesBE()
 		return set(e.uf("sha256", args[0].(BytesV).b, 32, d))
+	case ipfx + "native/std.MemoryCompare": // bytes.Compare: -1, 0, 1 (neo-go native/std.go memoryCompare)
+		ab, bb := args[0].(BytesV), args[1].(BytesV)
+		return set(IntV{Ite(bytesEq(ab.b, bb.b), I(0), Ite(lexLess(ab.b, bb.b), I(-1), I(1)))})
 	case ipfx + "native/std.MemorySearch", ipfx + "native/std.MemorySearchLastIndex":
 		ab, bb := args[0].(BytesV), args[1].(BytesV)
 		a, ok1 := isConstBytes(ab)
@@ -1045,6 +1048,25 @@ func (e *Engine) storageFind(s *St, prefix []*T, flags int) []findAlt {
 						panic(vmFault{fault})
 					}
 					val = dv
+					// PickField0 / PickField1 (neo-go istorage.FindPick0/1): the deserialized value must be an
+					// array or a struct with enough elements, the iterator hands out that element
+					if ind := pickIndex(flags); ind >= 0 {
+						var elems []Value
+						switch x := dv.(type) {
+						case StructV:
+							elems = x.f
+						case FrozenList:
+							elems = x.e
+						case *FrozenList:
+							elems = x.e
+						default:
+							panic(vmFault{"find: picked field of an item that is not an array"})
+						}
+						if len(elems) <= ind {
+							panic(vmFault{"find: picked field beyond the array"})
+						}
+						val = elems[ind]
+					}
 				}
 				switch {
 				case flags&keysOnly != 0:
@@ -1059,6 +1081,16 @@ func (e *Engine) storageFind(s *St, prefix []*T, flags int) []findAlt {
 		}
 	}
 	return alts
+}
+
+func pickIndex(flags int) int {
+	switch {
+	case flags&16 != 0:
+		return 0
+	case flags&32 != 0:
+		return 1
+	}
+	return -1
 }
 
 // freeze deep-copies a value into an immutable tree (lists become FrozenList); thaw re-allocates it.
